@@ -15,6 +15,10 @@ import (
 
 type fsm struct {
 	peer *peer
+	// index of this fsm (out or in) in the peer's per-fsm arrays. Set once at
+	// creation: the fsm goroutine must not read peer.fsms, which the peer
+	// goroutine modifies.
+	index int
 
 	// the bgp ID received in the latest open message
 	remoteID uint32
@@ -45,9 +49,10 @@ type fsm struct {
 	idleHoldTimer     *time.Timer
 }
 
-func newFSM(peer *peer, conn net.Conn) *fsm {
+func newFSM(peer *peer, index int, conn net.Conn) *fsm {
 	f := &fsm{
 		peer:    peer,
+		index:   index,
 		conn:    conn,
 		closeCh: make(chan struct{}),
 		doneCh:  make(chan struct{}),
